@@ -418,6 +418,8 @@ pub struct ParseOut {
     pub tree_flags: Value,
     pub istate: String,
     pub ser: Value,
+    /// the input with the injected strings written in place (equals the input when nothing was injected)
+    pub virtual_text: String,
 }
 
 /// case: {"mode":"doc"|"frag","ctx":{"ns","local"},"scripting":bool,"srcdoc":bool,"drop_doctype":bool,
@@ -492,12 +494,42 @@ pub fn run_parse(case: &Value) -> ParseOut {
         let ids = t.0.into_inner();
         tok.sink.tb.sink.ev(json!({"ev":"trace_handles","ids":ids}));
     };
+    // document.write simulation (C03): at the k-th script suspension the k-th string of case["inject"] is pushed to the
+    // front of the input.  `virtual_text` is the input as it reads once those strings are written in place.
+    let injects: Vec<String> = case["inject"].as_array().map(|a| a.iter().map(from_cps).collect()).unwrap_or_default();
+    let virtual_text: RefCell<Vec<char>> = RefCell::new(chunks.concat().chars().collect());
+    let fed_chars = Cell::new(0usize);
+    let ninj = Cell::new(0usize);
+    let queue_len = |q: &BufferQueue| -> usize {
+        let c = q.clone();
+        let mut n = 0;
+        while let Some(b) = c.pop_front() {
+            n += b.chars().count();
+        }
+        n
+    };
     let r = catch(|| {
         for ch in &chunks {
             queue.push_back(StrTendril::from_slice(ch));
+            fed_chars.set(fed_chars.get() + ch.chars().count());
             tok.sink.tb.sink.ev(json!({"ev":"feed","n":ch.chars().count()}));
             loop {
                 let res = tok.feed(&queue);
+                if let TokenizerResult::Script(_) = &res {
+                    if ninj.get() < injects.len() {
+                        let inj = &injects[ninj.get()];
+                        ninj.set(ninj.get() + 1);
+                        let consumed = fed_chars.get() - queue_len(&queue);
+                        if !inj.is_empty() {
+                            let mut v = virtual_text.borrow_mut();
+                            let tail: Vec<char> = v.split_off(consumed);
+                            v.extend(inj.chars());
+                            v.extend(tail);
+                            queue.push_front(StrTendril::from_slice(inj));
+                            fed_chars.set(fed_chars.get() + inj.chars().count());
+                        }
+                    }
+                }
                 let (ret, label) = match &res {
                     TokenizerResult::Done => ("done", json!([])),
                     TokenizerResult::Script(h) => ("script", json!([h.id])),
@@ -533,7 +565,8 @@ pub fn run_parse(case: &Value) -> ParseOut {
     let neof = events.iter().filter(|e| e["ev"] == "token" && e["tok"]["k"] == "eof").count();
     let tree_flags = if want_tree && panic.is_none() { dump_flags(&sink.inner.document, &sink.dups.borrow()) } else { json!({"k":"none"}) };
     let ser = if want_tree && panic.is_none() { ser_events(&sink.inner.document) } else { json!([]) };
-    ParseOut { events, tree, quirks, parents_ok, panic, feeds, neof, tree_flags, istate, ser }
+    let virtual_text: String = virtual_text.borrow().iter().collect();
+    ParseOut { events, tree, quirks, parents_ok, panic, feeds, neof, tree_flags, istate, ser, virtual_text }
 }
 
 /// Drive the tree builder directly with a token sequence (no tokenizer): the spec -> implementation
@@ -593,7 +626,7 @@ pub fn run_tokens(case: &Value) -> ParseOut {
         QuirksMode::NoQuirks => "no",
     };
     let neof = events.iter().filter(|e| e["ev"] == "token" && e["tok"]["k"] == "eof").count();
-    ParseOut { events, tree, quirks, parents_ok: true, panic, feeds: Vec::new(), neof, tree_flags, istate, ser: json!([]) }
+    ParseOut { events, tree, quirks, parents_ok: true, panic, feeds: Vec::new(), neof, tree_flags, istate, ser: json!([]), virtual_text: String::new() }
 }
 
 /// Bytes through the driver's from_utf8() front end (Utf8LossyDecoder -> Parser): C10's tree clause.
@@ -622,9 +655,9 @@ pub fn run_parse_bytes(case: &Value) -> ParseOut {
                 QuirksMode::NoQuirks => "no",
             };
             let parents_ok = parents_consistent(&sink.inner.document);
-            ParseOut { events: Vec::new(), tree, quirks, parents_ok, panic: None, feeds: Vec::new(), neof: 1, tree_flags, istate: "none".into(), ser: json!([]) }
+            ParseOut { events: Vec::new(), tree, quirks, parents_ok, panic: None, feeds: Vec::new(), neof: 1, tree_flags, istate: "none".into(), ser: json!([]), virtual_text: String::new() }
         },
         Err(m) => ParseOut { events: Vec::new(), tree: json!({"k":"none"}), quirks: "no", parents_ok: true, panic: Some(m), feeds: Vec::new(), neof: 0,
-                             tree_flags: json!({"k":"none"}), istate: "none".into(), ser: json!([]) },
+                             tree_flags: json!({"k":"none"}), istate: "none".into(), ser: json!([]), virtual_text: String::new() },
     }
 }
